@@ -39,7 +39,7 @@ ASSUMPTIONS = ['indentwidth is an integer (0-8 in the monitor domain); programs 
                'interior lines of multi-line block comments and long strings are token content, not layout: re-indentations leave them alone',
                'blank lines before the first line of the file are not "separating lines" (the output may start with up to two)']
 CLAIM = dict(
-    text=("Fourteen theorems in Properties/C10.v (Coq, closed under the global context) about fmt_run, the model of the 15-step re.sub "
+    text=("Fifteen theorems in Properties/C10.v (Coq, closed under the global context) about fmt_run, the model of the 15-step re.sub "
           "pipeline of LuaFormatterWriter._get_code_for_spaces, for white-space/comment runs of EVERY length, every indent width and "
           "depth, at the start / middle / end of the file: C10_run_canonical_form (exact line-by-line form of the output), "
           "C10_run_depends_on_norm (runs equal modulo blanks at line edges are formatted identically: re-indentation invariance "
@@ -224,8 +224,13 @@ def render(lines, rng, style, eol=b'\n'):
 
 
 def make_program(rng, tier, extended):
-    g = Gen10(rng, maxdepth=rng.choice([2, 3, 3, 4]), size=rng.choice([2, 4, 6, 9]))
-    p = g.program()
+    md, sz = rng.choice([2, 3, 3, 4]), rng.choice([2, 4, 6, 9])
+    try:
+        p = Gen10(rng, maxdepth=md, size=sz).program()
+    except (TypeError, AttributeError):
+        # pgen.py (worker parser) changed its internals: use its public entry point; programs on which luafmt
+        # raises (parenthesised call prefixes) are then counted as outside
+        p = pgen.generate_program(rng, maxdepth=md, size=sz)
     lines = skeleton(p, rng, extended)
     return p, lines
 
@@ -780,6 +785,17 @@ def run_cases(cases, ctx):
                     # unobservable places: treated like a correspondence break (the search then looks for a layout that shows it)
                     disagreements.append({'case': c, 'summary': {'kind': 'link', 'src': src.decode('latin-1')[:300]},
                                           'difference': 'writer _indent differs from the reference depth at byte offset %d (%s)' % (off, why)})
+    # ---- cross-check of the trusted reference reader (Spec/FmtShape.lex) against picotool's lexer on layout 0:
+    #      comments and strings must be the same byte ranges, every picotool code token must start a reference token
+    if ctx.get('monitor_exe') and ctx.get('tier') in ('quick', 'thorough'):
+        owners = [(c, o) for c, o in zip(cases, obs) if c['kind'] == 'prog' and o['outs'][0][0] == 'OK'][:: 1 if ctx['tier'] == 'quick' else 4]
+        ans = lib.run_driver_parallel(ctx['monitor_exe'], ['lex %s' % (c['srcs'][0] or '-') for c, o in owners]) if owners else []
+        for (c, o), a in zip(owners, ans):
+            why = _reader_crosscheck(bytes.fromhex(c['srcs'][0]), a)
+            bump('reader-vs-picotool-lexer:' + (why or 'agree'))
+            if why and not any(d.get('summary', {}).get('kind') == 'reader' for d in disagreements):
+                disagreements.append({'case': c, 'summary': {'kind': 'reader', 'src': c['srcs'][0]},
+                                      'difference': 'reference reader and picotool lexer disagree: ' + why})
     # minimise the smallest witness of each signature (at most 4 signatures, 12 s each)
     if violations and ctx.get('monitor_exe') and ctx.get('tier') != 'replay':
         best = {}
@@ -815,6 +831,49 @@ def _classify_link_mismatch(src, off):
         # _walk_TableConstructor decrements _indent before the trailing field separator
         return 'trailing-field-separator'
     return 'UNEXPLAINED at %r' % rest.split()[0][:8].decode('latin-1')
+
+
+def _reader_crosscheck(src, answer):
+    """-> None | description.  answer = the monitor's `lex` reply for src"""
+    from pico8.lua import lexer
+    import props.pstack as pstack
+    if answer == 'NONE' or answer.startswith('DRIVER'):
+        return 'reference reader gives no reading'
+    ref = []
+    off = 0
+    if answer != '-':
+        for item in answer.split(','):
+            k, h = item.split('.')
+            n = 0 if h == '-' else len(h) // 2
+            ref.append((int(k), off, n))
+            off += n
+    if off != len(src):
+        return 'reference tokens do not tile the text'
+    toks = pstack.lex(src)
+    starts = [0]
+    for i, ch in enumerate(src):
+        if ch == 10:
+            starts.append(i + 1)
+    ref_ranges = {(o, n): k for k, o, n in ref}
+    ref_starts = {o for k, o, n in ref if k >= 4}
+    for t in toks:
+        if t._lineno is None:
+            continue
+        o = starts[t._lineno] + t._charno
+        if isinstance(t, lexer.TokComment):
+            n = len(t._data)
+            if bytes(t._data).endswith(b'\r'):
+                n -= 1      # picotool's `--.*` takes the CR of a CRLF line end into the comment; Lua ends the comment before it
+            if ref_ranges.get((o, n)) not in (2, 3):
+                return 'comment %r at %d' % (bytes(t._data)[:12], o)
+        elif isinstance(t, lexer.TokString):
+            if o not in ref_starts or [k for (oo, n), k in ref_ranges.items() if oo == o][0] != 4:
+                return 'string at %d' % o
+        elif isinstance(t, (lexer.TokSpace, lexer.TokNewline)):
+            continue
+        elif o not in ref_starts:
+            return 'code token %r at %d' % (bytes(t._data)[:12], o)
+    return None
 
 
 def coq_shard(cases, obs, n, seed):
